@@ -1122,7 +1122,12 @@ def inline(buildable: config.Config):
     )
   # Evaluate the `as_buildable` interpretation.
   auto_config_fn = cast(AutoConfig, buildable.__fn_or_cls__)
-  tmp_config = auto_config_fn.as_buildable(**buildable.__arguments__)
+  # Positional-only and `*args` arguments are stored under their index: pass
+  # them positionally (they cannot be passed as keywords).
+  args, kwargs = buildable.__signature_info__.transform_to_args_kwargs(
+      buildable.__arguments__
+  )
+  tmp_config = auto_config_fn.as_buildable(*args, **kwargs)
   if not isinstance(tmp_config, config.Buildable):
     raise ValueError(
         'You cannot currently inline functions that do not return '
